@@ -11,6 +11,7 @@ import io
 import itertools
 import json
 import os
+import random
 import sys
 
 sys.path.insert(0, os.path.dirname(os.path.abspath(__file__)))
@@ -334,6 +335,15 @@ def gen_cases(rng, tier):
                   for _ in range(nf)]
         cases.append({'kind': 'bit_index', 'rows': rows, 'cols': cols, 'frames': frames,
                       'index': rng.choice([0, nf - 1, rng.randrange(nf)]), 'ts': rng.choice(NATIVE)})
+    # ---- the same values in another memory layout (the array VALUE is what must round-trip), and a
+    #      preceding encode/decode of the same format with the other pixel representation (history)
+    rng2 = random.Random(rng.random())
+    for c in cases:
+        if c['kind'].startswith('rt_'):
+            if rng2.random() < 0.4:
+                c['layout'] = rng2.choice(['F', 'T', 'strided', 'neg', 'be'])
+            if rng2.random() < 0.3 and c['ba'] != 1:
+                c['warm'] = True
     return cases
 
 
@@ -343,7 +353,22 @@ def gen_cases(rng, tier):
 def _array(c):
     import numpy as np
     shape = (c['rows'], c['cols'], c['shape2']) if c['ndim3'] else (c['rows'], c['cols'])
-    return np.array(c['data'], dtype=np.int64).astype(c['dtype']).reshape(shape)
+    a = np.array(c['data'], dtype=np.int64).astype(c['dtype']).reshape(shape)
+    lay = c.get('layout')
+    if lay == 'F':
+        a = np.asfortranarray(a)
+    elif lay == 'T':
+        ax = (1, 0, 2) if a.ndim == 3 else (1, 0)
+        a = np.ascontiguousarray(a.transpose(ax)).transpose(ax)
+    elif lay == 'strided':
+        big = np.zeros((2 * shape[0], 3 * shape[1]) + shape[2:], dtype=a.dtype)
+        big[::2, ::3] = a
+        a = big[::2, ::3]
+    elif lay == 'neg':
+        a = np.ascontiguousarray(a[::-1, ::-1])[::-1, ::-1]
+    elif lay == 'be':
+        a = a.astype(a.dtype.newbyteorder('>'))
+    return a
 
 
 def _dec_val(fn):
@@ -420,6 +445,17 @@ def _observe(c):
     uid = TS[c['ts']][0]
     s = c['shape2'] if c['ndim3'] else 1
     codec_refused = [False]
+    if c.get('warm'):
+        # history: the same image format was just encoded and decoded with the OTHER pixel representation
+        import numpy as np
+        try:
+            other = np.dtype(('u' if c['pr'] else 'i') + str(max(1, c['ba'] // 8)))
+            a2 = np.zeros(arr.shape, dtype=other)
+            a2.reshape(-1)[::2] = 1
+            v2 = hf.encode_frame(a2, uid, c['ba'], c['bs'], c['pi'], 1 - c['pr'], c['pl'])
+            hf.decode_frame(v2, uid, c['rows'], c['cols'], s, c['ba'], c['bs'], c['pi'], 1 - c['pr'], c['pl'])
+        except Exception:      # noqa  (the warm-up itself is not under test)
+            pass
 
     pi_a, pr_a, pl_a = c['pi'], c['pr'], c['pl']
     if c.get('enum'):
